@@ -128,6 +128,7 @@ ADDED = {
     "C14": " Also: doubling layouts - v.repeat(2) is pairwise (xpxp-like), concatenate([v, v]) / tile(v, 2) and the complex covariance / displacement are block (xxpp-like); sums and products combine one layout. Also: (c) every GaussianState constructed inside the library receives the config of the state it is derived from (hbar lives there); (d) ordering tags xpxp/xxpp: the index maps are applied to quantities of the source ordering, sums and products combine one ordering, ordering-named getters/setters return/receive that ordering.",
     "C15": " Also: (c) each Givens step of the Clements sweep nulls one element of the addressed pair for the angles _get_angles returns, symbolically for every non-zero pivot and with the degenerate arm's constants for a zero pivot.",
     "C16": " Also: the rule is applied per mode-tuple source when a function handles two (register and instruction), to return-based shortcuts, to sequential positional edits (np.insert / delete / pop at positions from the mode tuple inside a loop over it), and to the methods of Program, Simulator and Instruction. Also: a fullness test by length, or any test over order-insensitive aggregates of the mode tuple (len/min/max/sum/set) that substitutes a value ignoring the tuple; the complement of the complement; outcome projections that run in parallel with the mode tuple.",
+    "C17": " Also: (e) in a guarded gate step of the fermionic Fock simulator the coefficients that multiply amplitudes read from the state vector are loop-invariant (depend on the gate parameters, never on the basis state visited: on adjacent modes the Jordan-Wigner strings cancel); (f) every implementation of calculate_interferometer_on_fermionic_fock_space appends exactly one constant (first, zero particles) and every later representation depends on the matrix and, inside the loop, on a previous representation.",
     "C18": " Also: every use of an operand's raw amplitude map in __add__ is weighted by that operand's coefficient.",
     "C19": " Also: no one-sided skip guard around emitted instructions; no sorted/set image of a gate's qubit operands; no bit resolved by its position in an instruction's own operand list.",
     "C20": " Also: the whitelist is closed under subclassing (it is applied with isinstance) and every admitted operator class is a key of the table _eval uses; no comparator of a chained comparison is evaluated before the earlier links are tested; an evaluated slice bound is never used as a truth value; the value of a condition is consumed by truthiness only (never compared with True).",
